@@ -20,7 +20,8 @@ TS = '2017-01-01T12:34:56.000Z'
 ID_KINDS = ['v4', 'v4', 'v4', 'v1', 'v5', 'nonrfc', 'garbage']
 ENTRY_POINTS = ['parse_observable', 'mem_store_ctor', 'mem_source_ctor', 'mem_sink_ctor', 'mem_store_add', 'mem_sink_add',
                 'mem_source_load', 'mem_store_load', 'fs_sink_add', 'fs_store_add', 'fs_get', 'fs_all_versions', 'fs_query',
-                'fs_store_get', 'env_add', 'roundtrip']
+                'fs_store_get', 'env_add', 'roundtrip', 'mem_store_add_list', 'mem_store_add_bundle', 'mem_store_load_bundle',
+                'fs_sink_add_list', 'fs_sink_add_text', 'fs_store_query', 'fs_store_all_versions']
 
 
 def mk_uuid(kind, n):
@@ -86,7 +87,7 @@ class C14(Profile):
     wall_cap = {'quick': 1200, 'thorough': 6 * 3600}
     probes = ['named_version_differs_from_detected', 'nonrfc_id_rejected', 'uuidv1_id', 'accepted_object_checked',
               'rejected_by_both', 'dict_returned', 'roundtrip_checked', 'fs_entry', 'memory_entry', 'load_entry',
-              'nonrfc_ref_rejected']
+              'nonrfc_ref_rejected', 'fs_layout_flat', 'fs_layout_flat_in_versioned_dir', 'fs_layout_versioned']
     rule = ('plans: 20-60 ops, each = (entry point among parse_observable, Memory{Store,Source,Sink} construction/add/load, '
             'FileSystem{Sink,Store}.add, FileSystem{Source,Store}.get/all_versions/query, Environment.add) x version in {None,2.0,2.1} x '
             'allow_custom x one of 23 inputs that separate the versions (differing required properties, spec_version present/absent, '
@@ -166,6 +167,24 @@ class C14(Profile):
             S = MemoryStore(allow_custom=a)
             o = call(S.add, cp(), version=v)
             return o, (S.query([]) if o.ok else None)
+        bundle = lambda: dict({'type': 'bundle', 'id': C.mkid('bundle', i), 'objects': [cp()]},
+                              **({'spec_version': '2.0'} if 'spec_version' not in d else {}))
+        if ep in ('mem_store_add_list', 'mem_store_add_bundle'):
+            S = MemoryStore(allow_custom=a)
+            o = call(S.add, [[cp()]] if ep.endswith('list') else bundle(), version=v)
+            return o, (S.query([]) if o.ok else None)
+        if ep == 'mem_store_load_bundle':
+            path = os.path.join(self.fresh_dir(sw, i, 'loadb'), 'in.json')
+            sw.disk.raw_write(os.path.relpath(path, sw.disk.root), json.dumps(bundle()).encode())
+            S = MemoryStore(allow_custom=a)
+            o = call(S.load_from_file, path, version=v)
+            return o, (S.query([]) if o.ok else None)
+        if ep in ('fs_sink_add_list', 'fs_sink_add_bundle_text', 'fs_sink_add_text'):
+            root = self.fresh_dir(sw, i, 'fs')
+            S = FileSystemSink(root, allow_custom=a)
+            arg = [cp()] if ep.endswith('list') else json.dumps(bundle()) if 'bundle' in ep else json.dumps(d)
+            o = call(S.add, arg, version=v)
+            return o, None
         if ep == 'mem_sink_add':
             S = MemorySink(allow_custom=a)
             o = call(S.add, cp(), version=v)
@@ -188,16 +207,30 @@ class C14(Profile):
             return o, None
         # filesystem reads: the harness places the file (documented plain-file layout <type>/<id>.json)
         root = self.fresh_dir(sw, i, 'fsr')
-        rel = os.path.join(os.path.relpath(root, sw.disk.root), d['type'], d.get('id', 'noid') + '.json')
+        relroot = os.path.relpath(root, sw.disk.root)
+        layout = ['flat', 'flat_in_versioned_dir', 'versioned'][i % 3]
+        sid = d.get('id', 'noid')
+        if not sid.split('--')[-1].replace('-', '').isalnum() or 'not-a-uuid' in sid:
+            layout = 'flat'      # the one-directory-per-id layout is only recognised for well-formed ids
+        if layout == 'versioned':
+            rel = os.path.join(relroot, d['type'], sid, '20170101123456000.json')
+        else:
+            rel = os.path.join(relroot, d['type'], sid + '.json')
         sw.disk.raw_write(rel, json.dumps(d).encode())
-        S = FileSystemStore(root, allow_custom=a) if ep == 'fs_store_get' else FileSystemSource(root, allow_custom=a)
+        if layout == 'flat_in_versioned_dir':
+            # a sibling object in the one-directory-per-id layout makes the type directory "versioned"; the flat file is
+            # then found through the backward-compatibility search
+            sib = dict(d, id='%s--%s' % (d['type'], C.mkuuid(i, 'c14sib')))
+            sw.disk.raw_write(os.path.join(relroot, d['type'], sib['id'], '20170101123456000.json'), json.dumps(sib).encode())
+        sw.world.probe('fs_layout_' + layout)
+        S = FileSystemStore(root, allow_custom=a) if ep.startswith('fs_store') else FileSystemSource(root, allow_custom=a)
         if ep in ('fs_get', 'fs_store_get'):
             o = call(S.get, d.get('id', 'noid'), version=v)
             return o, ([o.value] if o.ok and o.value is not None else ([] if o.ok else None))
-        if ep == 'fs_all_versions':
+        if ep in ('fs_all_versions', 'fs_store_all_versions'):
             o = call(S.all_versions, d.get('id', 'noid'), version=v)
         else:
-            o = call(S.query, [s.Filter('type', '=', d['type'])], version=v)
+            o = call(S.query, [s.Filter('type', '=', d['type']), s.Filter('id', '=', sid)], version=v)
         return o, (list(o.value) if o.ok else None)
 
     def op_entry(self, world, sw, op, i):
@@ -205,7 +238,7 @@ class C14(Profile):
         d = family(op['n'], op['idk'], op['refk'])[op['inp']]
         a, v, ep = op['a'], op['v'], op['ep']
         is_sco_ep = ep == 'parse_observable'
-        if ep.startswith('fs_') and ep not in ('fs_sink_add', 'fs_store_add') and 'id' not in d:
+        if ep.startswith('fs_') and 'add' not in ep and 'id' not in d:
             world.stat('op_skipped')
             return
         if ep.startswith('fs_') and op['idk'] == 'garbage':
@@ -243,7 +276,7 @@ class C14(Profile):
             if not ref.ok:
                 world.probe('rejected_by_both')
         if not out.ok or not objs:
-            if out.ok and objs is None and ep in ('fs_sink_add', 'fs_store_add'):
+            if out.ok and objs is None and ep.startswith('fs_') and 'add' in ep:
                 world.changed()
                 self.check_written(world, sw, ref, i, d)
             return
